@@ -135,6 +135,41 @@ fn items_for(p: &Proto, deep: bool) -> Vec<Item> {
             v.push(Item { cfg: c, what: "the protocol name string" });
         }
     }
+    // (i') the same modifiers spelled in another order are a valid, different name: one side obtains its
+    // parameters by parsing that other spelling (same tokens, same keys - only the hashed string differs)
+    if p.psks.len() >= 2 {
+        let spell = |ps: &[u8]| {
+            let mods: Vec<String> = ps.iter().map(|k| format!("psk{k}")).collect();
+            format!("Noise_{}{}_{}_{}_{}", p.base, mods.join("+"), p.dh.name(), p.cipher.name(), p.hash.name())
+        };
+        let mut orders: Vec<Vec<u8>> = vec![p.psks.iter().rev().copied().collect()];
+        let mut rot = p.psks.clone();
+        rot.rotate_left(1);
+        orders.push(rot);
+        let mut sw = p.psks.clone();
+        let l = sw.len();
+        sw.swap(l - 2, l - 1);
+        orders.push(sw);
+        orders.sort();
+        orders.dedup();
+        for (k, o) in orders.iter().enumerate() {
+            if *o == p.psks {
+                continue;
+            }
+            let mut c = base.clone();
+            c.parse_name[k % 2] = Some(spell(o));
+            v.push(Item { cfg: c, what: "the order in which the name spells its psk modifiers" });
+            // both sides parse a reordered spelling, but not the same one
+            if orders.len() >= 2 {
+                let o2 = &orders[(k + 1) % orders.len()];
+                if o2 != o && *o2 != p.psks {
+                    let mut c = base.clone();
+                    c.parse_name = [Some(spell(o)), Some(spell(o2))];
+                    v.push(Item { cfg: c, what: "the order in which the name spells its psk modifiers" });
+                }
+            }
+        }
+    }
     // (ii) a name component of equal length / same message shape
     let swap_hash = match p.hash {
         HashAlg::Sha256 => Some(HashAlg::Blake2s),
